@@ -15,6 +15,9 @@ pub use prayer_times::*;
 mod angle;
 mod test_utils;
 
+#[cfg(feature = "verif-hooks")]
+pub mod verif;
+
 // A trait to implement on a type that is bounded within an inclusive range
 // which provides a default implementation for try_from so it can be constructed
 // using TryFrom<T>::try_from syntax from a type T.
